@@ -216,6 +216,210 @@ Example C13_root_label_instead_of_start :
     dom dict 5%nat = false.
 Proof. eexists. split; vm_compute; reflexivity. Qed.
 
+(* ================================================================ NON-VACUITY (audit)
+   Every theorem above with hypotheses is APPLIED to a concrete instance (all hypotheses discharged at
+   once).  Universes: ex1 / ex2 (three labels each, recursion, two candidate rules for the root, a
+   permuted match, five pairs visited of which three are recorded as failed).
+   NB  labels s  lists labels with repetitions, so  length (all_pairs ex1 ex2) = 100: the fuel bounds of
+   the two totality theorems are 101 and 302 here (loose but satisfiable). *)
+Definition ex_fst : fstate :=
+  mkF [((0, 7), [(([], []), [])]);
+       ((1, 6), [(([0; 2], [5; 7]), [1; 0]%Z)]);
+       ((2, 5), [(([0; 1], [6; 7]), [1; 0]%Z); (([0; 0], [7; 7]), [0; 1]%Z)])]%nat
+      [(2, 5); (1, 7); (1, 6); (0, 5); (0, 6)]%nat [].
+Lemma ex_first : find ex1 ex2 101 (s_root ex1) (s_root ex2) init_fstate = Ok (true, ex_fst).
+Proof. vm_compute. reflexivity. Qed.
+Definition ex_d1 : smap := [(2, [0; 1]); (1, [0; 2]); (0, [])]%nat.
+Definition ex_d2 : smap := [(5, [6; 7]); (6, [5; 7]); (7, [])]%nat.
+Lemma ex_found : find_base ex1 ex2 101 = Found ex_d1 ex_d2.
+Proof. vm_compute. reflexivity. Qed.
+Lemma ex_found_fixed : find_base_fixed ex1 ex2 101 400 = Found ex_d1 ex_d2.
+Proof. vm_compute. reflexivity. Qed.
+Lemma ex_fuel : (length (all_pairs ex1 ex2) < 101)%nat.
+Proof. vm_compute. repeat constructor. Qed.
+Lemma ex_wfuel : (length (all_pairs ex1 ex2) * S (max_arity ex2) + 1 < 400)%nat.
+Proof. vm_compute. repeat constructor. Qed.
+
+(* covers C13_first_search_sound: the recorded entry of the root pair with the PERMUTED order *)
+Example C13_first_search_sound_nonvacuous :
+  In ([0; 1], [6; 7])%nat (potential_children ex1 ex2 2 5) /\ perm_ok 2 [1; 0]%Z.
+Proof.
+  destruct (C13_first_search_sound ex1 ex2 101 true ex_fst ex_first 2%nat 5%nat
+              [(([0; 1], [6; 7]), [1; 0]%Z); (([0; 0], [7; 7]), [0; 1]%Z)]%nat
+              ([0; 1], [6; 7])%nat [1; 0]%Z ltac:(vm_compute; reflexivity) (or_introl eq_refl))
+    as [[E _]|[A [_ B]]]; [discriminate|split; assumption].
+Qed.
+(* ... the atom branch of the disjunction is taken for the pair of atoms *)
+Example C13_first_search_sound_atom_branch : atoms_match ex1 ex2 0 7 = true.
+Proof.
+  destruct (C13_first_search_sound ex1 ex2 101 true ex_fst ex_first 0%nat 7%nat
+              [(([], []), [])] ([], []) [] ltac:(vm_compute; reflexivity) (or_introl eq_refl))
+    as [[_ [_ E]]|[_ [A _]]]; [exact E|exfalso; apply A; reflexivity].
+Qed.
+
+(* covers C13_failure_memo_sound: (1,7) is in `visited` and not in matching_info, hence not matchable;
+   the roots are matchable (C13_matchable_example) and the answer is True *)
+Example C13_failure_memo_sound_nonvacuous :
+  ~ matchable ex1 ex2 (1, 7)%nat /\ (matchable ex1 ex2 (s_root ex1, s_root ex2) -> true = true).
+Proof.
+  destruct (C13_failure_memo_sound ex1 ex2 101 true ex_fst ex_first) as [A B].
+  split; [|exact B].
+  apply A; [right; left; reflexivity|vm_compute; reflexivity].
+Qed.
+(* ... and the conclusion discriminates: on a pair of universes whose roots do not match the first
+   search answers False, so (contrapositive of the second part) the roots are NOT matchable *)
+Example C13_failure_memo_sound_false_branch : ~ matchable ex1 w2 (s_root ex1, s_root w2).
+Proof.
+  intros H.
+  destruct (C13_failure_memo_sound ex1 w2 101 false
+              (mkF [] [(2, 3); (0, 2); (0, 1)]%nat []) ltac:(vm_compute; reflexivity)) as [_ B].
+  specialize (B H). discriminate.
+Qed.
+
+(* C13_base_finder_never_raises has no hypotheses; its conclusion is not true of every finder of the
+   model: the EqPath variant does reach Failed (C13_eqpath_raises_refuted). *)
+
+(* covers C13_base_finder_total (and shows which branch is taken: Found) *)
+Example C13_base_finder_total_nonvacuous :
+  find_base ex1 ex2 101 = Nothing \/ exists d1 d2, find_base ex1 ex2 101 = Found d1 d2.
+Proof. exact (C13_base_finder_total ex1 ex2 101%nat ex_fuel). Qed.
+Example C13_base_finder_total_branch :
+  find_base ex1 ex2 101 = Found ex_d1 ex_d2 /\ find_base ex1 w2 101 = Nothing /\
+  find_base ex1 ex2 2 = NoFuel.
+Proof. repeat split; vm_compute; reflexivity. Qed.
+
+(* covers C13_maps_use_rules *)
+Example C13_maps_use_rules_nonvacuous :
+  (exists k, In ([0; 2]%nat, k) (rules_of ex1 1)) /\ (exists k, In ([6; 7]%nat, k) (rules_of ex2 5)).
+Proof.
+  destruct (C13_maps_use_rules ex1 ex2 101 ex_d1 ex_d2 ex_found) as [A B]. split.
+  - destruct (A 1%nat [0; 2]%nat ltac:(simpl; auto)) as [[E _]|H]; [discriminate|exact H].
+  - destruct (B 5%nat [6; 7]%nat ltac:(simpl; auto)) as [[E _]|H]; [discriminate|exact H].
+Qed.
+
+(* covers C13_matched_pair_with_repair *)
+Example C13_matched_pair_with_repair_nonvacuous : matched_pair ex1 ex2 ex_d1 ex_d2.
+Proof. exact (C13_matched_pair_with_repair ex1 ex2 101 400 ex_d1 ex_d2 ex_found_fixed). Qed.
+
+(* covers C13_matched_pair_with_repair_eqpath: the oracle answers the three questions the EqPath
+   variant asks on this input (root pair, (1,6) below it, the root pair again below (1,6)) *)
+Definition ex_oracle : list (qkey * bool) :=
+  [((2, 5, (0, 0), ([0; 1], [6; 7])), true); ((1, 6, (3, 6), ([0; 2], [5; 7])), true);
+   ((2, 5, (2, 7), ([0; 1], [6; 7])), true)]%nat.
+Example C13_matched_pair_with_repair_eqpath_nonvacuous : matched_pair ex1 ex2 ex_d1 ex_d2.
+Proof.
+  apply (C13_matched_pair_with_repair_eqpath ex1 ex2 101 400 ex_oracle ex_d1 ex_d2 (map fst ex_oracle)).
+  vm_compute. reflexivity.
+Qed.
+(* matched_pair is not true of every pair of maps: C13_matched_pair_refuted exhibits maps returned by
+   the unrepaired finder that are not matched. *)
+
+(* covers C13_repaired_base_finder_total (branch taken: Found; Nothing on the refutation witness) *)
+Example C13_repaired_base_finder_total_nonvacuous :
+  find_base_fixed ex1 ex2 101 400 = Nothing \/ exists d1 d2, find_base_fixed ex1 ex2 101 400 = Found d1 d2.
+Proof. exact (C13_repaired_base_finder_total ex1 ex2 101%nat 400%nat ex_fuel ex_wfuel). Qed.
+Example C13_repaired_base_finder_total_branch :
+  find_base_fixed ex1 ex2 101 400 = Found ex_d1 ex_d2 /\ find_base_fixed w1 w2 20 100 = Nothing.
+Proof. split; vm_compute; reflexivity. Qed.
+
+(* covers C13_spec_from_label_map, in the a34d719 situation (start label 5 is not its own
+   representative; label 2 is equivalent to label 1) *)
+Lemma ex_fpath_ok (rep : nat -> nat) : forall l t, rep l = rep t ->
+  ex_fpath l t <> [] /\ hd O (ex_fpath l t) = l /\ last (ex_fpath l t) O = t.
+Proof.
+  intros l t _. unfold ex_fpath. destruct (Nat.eqb l t) eqn:E.
+  - apply PeanoNat.Nat.eqb_eq in E. subst. repeat split. discriminate.
+  - repeat split. discriminate.
+Qed.
+Example C13_spec_from_label_map_nonvacuous :
+  rule_set_ok ex_rep ex_fpath [(0, [1; 2]); (1, [])]%nat [(0, [1; 1]); (1, [])]%nat 5%nat [5; 2]%nat.
+Proof.
+  apply (C13_spec_from_label_map ex_rep ex_fpath [(0, [1; 2]); (1, [])]%nat [(0, [1; 1]); (1, [])]%nat
+           0%nat 5%nat [5; 2]%nat 10%nat [(0, [1; 1]); (1, [])]%nat (ex_fpath_ok ex_rep)).
+  - vm_compute. reflexivity.
+  - reflexivity.
+  - intros e [<-|[<-|[]]].
+    + exists (0, [1; 2])%nat. split; [left; reflexivity|vm_compute; reflexivity].
+    + exists (1, [])%nat. split; [right; left; reflexivity|vm_compute; reflexivity].
+  - destruct C13_two_rule_sets_hypotheses as [_ [_ H]]. exact H.
+Qed.
+
+(* covers C13_two_rule_sets_with_repair: BOTH sides at once, on ex1 / ex2, each read off a rule database
+   with non-trivial equivalences:
+     side 1  labels 3 ~ 0 and 9 ~ 2; the start label is 9 (root equivalence label 2); the stored rules
+             mention label 3 where the universe has 0;
+     side 2  label 4 ~ 5; the start label is 4 (root equivalence label 5). *)
+Definition rep1 := fun l : nat => match l with 9 => 2 | 3 => 0 | _ => l end%nat.
+Definition rep2 := fun l : nat => match l with 4 => 5 | _ => l end%nat.
+Definition stored1 : list rkey := [(0, []); (1, [3; 2]); (2, [0; 1]); (2, [3; 0])]%nat.
+Definition stored2 : list rkey := [(7, []); (5, [6; 7]); (5, [7; 7]); (6, [5; 7])]%nat.
+Definition keys1 : list rkey := [(2, [0; 1]); (0, []); (1, [0; 2])]%nat.
+Definition keys2 : list rkey := [(5, [6; 7]); (6, [5; 7]); (7, [])]%nat.
+
+Lemma ex_universe1 : universe_of rep1 ex1 stored1.
+Proof.
+  split.
+  - intros l c k H. unfold rules_of in H.
+    destruct (assoc_nat (s_rules ex1) l) as [rs|] eqn:E; [|destruct H].
+    apply assoc_nat_In in E. simpl in E.
+    destruct E as [E|[E|[E|[]]]]; inversion E; subst; simpl in H.
+    + destruct H as [H|[]]. inversion H; subst. exists (0, [])%nat. split; [simpl; auto|reflexivity].
+    + destruct H as [H|[]]. inversion H; subst. exists (1, [3; 2])%nat.
+      split; [simpl; auto|vm_compute; reflexivity].
+    + destruct H as [H|[H|[]]]; inversion H; subst.
+      * exists (2, [0; 1])%nat. split; [simpl; auto|vm_compute; reflexivity].
+      * exists (2, [3; 0])%nat. split; [simpl; auto|vm_compute; reflexivity].
+  - intros l H. unfold atom_of in H. destruct (assoc_nat (s_atoms ex1) l) as [z|] eqn:E; [|congruence].
+    apply assoc_nat_In in E. simpl in E. destruct E as [E|[]]. inversion E; subst.
+    exists (0, [])%nat. split; [simpl; auto|reflexivity].
+Qed.
+Lemma ex_universe2 : universe_of rep2 ex2 stored2.
+Proof.
+  split.
+  - intros l c k H. unfold rules_of in H.
+    destruct (assoc_nat (s_rules ex2) l) as [rs|] eqn:E; [|destruct H].
+    apply assoc_nat_In in E. simpl in E.
+    destruct E as [E|[E|[E|[]]]]; inversion E; subst; simpl in H.
+    + destruct H as [H|[]]. inversion H; subst. exists (7, [])%nat. split; [simpl; auto|reflexivity].
+    + destruct H as [H|[H|[]]]; inversion H; subst.
+      * exists (5, [6; 7])%nat. split; [simpl; auto|vm_compute; reflexivity].
+      * exists (5, [7; 7])%nat. split; [simpl; auto|vm_compute; reflexivity].
+    + destruct H as [H|[]]. inversion H; subst. exists (6, [5; 7])%nat.
+      split; [simpl; auto|vm_compute; reflexivity].
+  - intros l H. unfold atom_of in H. destruct (assoc_nat (s_atoms ex2) l) as [z|] eqn:E; [|congruence].
+    apply assoc_nat_In in E. simpl in E. destruct E as [E|[]]. inversion E; subst.
+    exists (7, [])%nat. split; [simpl; auto|reflexivity].
+Qed.
+Lemma ex_order1 : order_ok rep1 stored1 keys1 9%nat [9; 3]%nat.
+Proof.
+  intros d0 e2p H. vm_compute in H. inversion H; subst. intros l.
+  do 10 (destruct l as [|l]; [vm_compute; intuition congruence|]). vm_compute; intuition congruence.
+Qed.
+Lemma ex_order2 : order_ok rep2 stored2 keys2 4%nat [4]%nat.
+Proof.
+  intros d0 e2p H. vm_compute in H. inversion H; subst. intros l.
+  do 8 (destruct l as [|l]; [vm_compute; intuition congruence|]). vm_compute; intuition congruence.
+Qed.
+Example C13_two_rule_sets_with_repair_nonvacuous :
+  rule_set_ok rep1 ex_fpath stored1 keys1 9%nat [9; 3]%nat /\
+  rule_set_ok rep2 ex_fpath stored2 keys2 4%nat [4]%nat.
+Proof.
+  apply (C13_two_rule_sets_with_repair ex1 ex2 101 400 ex_d1 ex_d2 ex_found_fixed
+           rep1 ex_fpath stored1 9%nat [9; 3]%nat 10%nat keys1
+           rep2 ex_fpath stored2 4%nat [4]%nat 10%nat keys2
+           (ex_fpath_ok rep1) (ex_fpath_ok rep2) ex_universe1 ex_universe2
+           ltac:(vm_compute; reflexivity) ltac:(vm_compute; reflexivity) eq_refl eq_refl
+           ex_order1 ex_order2).
+Qed.
+(* ... and the two dictionaries the extractor really returns (equivalence-path rules 9 -> 2, 3 -> 0 on
+   side 1 and 4 -> 5 on side 2 are added) *)
+Example C13_two_rule_sets_with_repair_value :
+  extract rep1 ex_fpath stored1 keys1 9%nat [9; 3]%nat
+    = Some [(2, [0; 1]); (0, []); (1, [3; 2]); (9, [2]); (3, [0])]%nat /\
+  extract rep2 ex_fpath stored2 keys2 4%nat [4]%nat
+    = Some [(5, [6; 7]); (6, [5; 7]); (7, []); (4, [5])]%nat.
+Proof. split; vm_compute; reflexivity. Qed.
+
 Print Assumptions C13_matched_pair_refuted.
 Print Assumptions C13_eqpath_raises_refuted.
 Print Assumptions C13_first_search_sound.
